@@ -2,6 +2,7 @@ package main
 
 import (
 	"bytes"
+	"crypto/sha256"
 	"encoding/hex"
 	"encoding/json"
 	"flag"
@@ -21,6 +22,28 @@ type walOp struct {
 	Op  string `json:"op"` // append | appendsync | rotate
 	Rec []byte `json:"rec,omitempty"`
 	Err string `json:"err,omitempty"`
+	// a large record is given by length and seed and materialised when the program runs
+	GenN    int   `json:"gen_n,omitempty"`
+	GenSeed int64 `json:"gen_seed,omitempty"`
+}
+
+func (o walOp) rec() []byte {
+	if o.GenN == 0 {
+		return o.Rec
+	}
+	rec := make([]byte, o.GenN)
+	rand.New(rand.NewSource(o.GenSeed)).Read(rec)
+	rec[0], rec[o.GenN-1] = 0x91, byte(o.GenSeed)
+	return rec
+}
+
+// squash: records above 64 KiB are kept in observations as their SHA-256
+func squash(b []byte) []byte {
+	if len(b) <= 64<<10 {
+		return b
+	}
+	sum := sha256.Sum256(b)
+	return append([]byte(fmt.Sprintf("sha256/%d:", len(b))), sum[:]...)
 }
 
 type walCfg struct {
@@ -79,7 +102,7 @@ func replayDir(cfg walCfg, dir string) ([][]byte, error) {
 	}
 	var recs [][]byte
 	err = rp.Replay(func(r []byte) error {
-		recs = append(recs, append([]byte{}, r...))
+		recs = append(recs, squash(append([]byte{}, r...)))
 		return nil
 	})
 	return recs, err
@@ -113,9 +136,9 @@ func runWalOps(cfg walCfg, ops []walOp, dir string, ack *ackWriter) error {
 		var err error
 		switch ops[i].Op {
 		case "append":
-			err = a.Append(ops[i].Rec)
+			err = a.Append(ops[i].rec())
 		case "appendsync":
-			err = a.AppendSync(ops[i].Rec)
+			err = a.AppendSync(ops[i].rec())
 		case "rotate":
 			_, err = a.Rotate()
 		}
@@ -300,7 +323,7 @@ func (c *c07Case) appended() ([][]byte, []bool) {
 		if o.Op == "rotate" || o.Err != "" {
 			continue
 		}
-		r := o.Rec
+		r := squash(o.rec())
 		if r == nil {
 			r = []byte{}
 		}
@@ -434,6 +457,11 @@ func (c *c07Case) Sx() string {
 	if c.Fatal != "" || c.Cfg.Comp != 0 {
 		return ""
 	}
+	for _, o := range c.Ops {
+		if o.GenN > 0 {
+			return "" // megabyte records are judged by the oracle only
+		}
+	}
 	var ops, files, recs []string
 	for _, o := range c.Ops {
 		switch o.Op {
@@ -518,6 +546,24 @@ func genC07(r *rand.Rand, tier string) []Case {
 				}
 				c.Ops = append(c.Ops, op)
 			}
+		}
+		if c.Crash {
+			// what Rotate and Close do with a tail that is still in the write buffer and begins in the middle of a record
+			// (record lengths just above the buffer size and just above half of it leave such a tail)
+			wb := c.Cfg.WBuf
+			if c.Cfg.Facade {
+				wb = 64
+			}
+			c.Ops = append(c.Ops, walOp{Op: "append", Rec: bytes.Repeat([]byte{0xa0 + byte(i)}, wb+3)}, walOp{Op: "append", Rec: bytes.Repeat([]byte{0xc0 + byte(i)}, wb/2+5)}, walOp{Op: "rotate"},
+				walOp{Op: "append", Rec: bytes.Repeat([]byte{0xb0 + byte(i)}, wb/2+5)}, walOp{Op: "append", Rec: bytes.Repeat([]byte{0xd0 + byte(i)}, wb+3)})
+		}
+		cases = append(cases, c)
+	}
+	// records around the size classes of the readers' buffer pool and beyond the default write buffer
+	for i := 0; i < 2; i++ {
+		c := &c07Case{Cfg: walCfg{MaxSize: []uint64{1 << 20, 64 << 20}[i], Comp: 0, WBuf: 4 << 20, Facade: i == 1}}
+		for j, n := range []int{100, 512<<10 + 1, 1 << 20, 1<<20 + 1, 3, 4<<20 + 100, 2<<20 + 7} {
+			c.Ops = append(c.Ops, walOp{Op: []string{"append", "appendsync"}[(i+j)%2], GenN: n, GenSeed: int64(j + 1)})
 		}
 		cases = append(cases, c)
 	}
